@@ -36,6 +36,16 @@ class Ref(Obj):
         return self.cls
 
 
+class Seq(Obj):
+    """a sequence known only by its length (and where it starts in the sequence it was sliced from)"""
+    def __init__(self, length, start=0, name="data"):
+        Obj.__init__(self, "Seq")
+        self.length, self.start, self.name = length, start, name
+
+    def __repr__(self):
+        return "<%s[%d:%d]>" % (self.name, self.start, self.start + self.length)
+
+
 class ClsRef:
     def __init__(self, name):
         self.name = name
@@ -49,6 +59,17 @@ class _Raise(Exception):
         self.text = text
 
 
+def truth(v):
+    """truth value of an evaluated value (Desc has none: callers test for it first)"""
+    if isinstance(v, Seq):
+        return v.length > 0
+    if isinstance(v, Ref):
+        return bool(v.items)
+    if isinstance(v, Obj):
+        return True
+    return bool(v)
+
+
 def show(v):
     if isinstance(v, (Obj, Desc, ClsRef)):
         return repr(v)
@@ -57,11 +78,12 @@ def show(v):
     return repr(v)
 
 
-def run_concrete(stmts, env, events, notes, depth=0, workers=(), resolver=None, hooks=None):
+def run_concrete(stmts, env, events, notes, depth=0, workers=(), resolver=None, hooks=None, functions=None):
     """events: ('new', cls, [args], obj) / ('call', receiver text, method, [arg texts], [arg values], {keyword values}, receiver value).
     Returns 'raise:<name>', 'return', 'exit', 'break', 'continue' or None; the value of a return statement is left in env['$return'].
     resolver(name) -> ast.FunctionDef of a method of the object under evaluation (or None): such calls are interpreted, not described.
-    hooks: {(receiver text, method): value or callable(args)} - what a described call evaluates to (e.g. the listing of the source image)."""
+    hooks: {(receiver text, method): value or callable(args)} - what a described call evaluates to (e.g. the listing of the source image).
+    functions: {name: ast.FunctionDef} module-level functions that are interpreted when called by bare name."""
     hooks = hooks or {}
 
     def plain_env():
@@ -82,7 +104,7 @@ def run_concrete(stmts, env, events, notes, depth=0, workers=(), resolver=None, 
             sub[p_] = a
         for k, v in kwargs.items():
             sub[k] = v
-        r = run_concrete(body_without_doc(fdef), sub, events, notes, depth + 1, workers, resolver, hooks)
+        r = run_concrete(body_without_doc(fdef), sub, events, notes, depth + 1, workers, resolver, hooks, functions)
         for k, v in sub.items():
             if isinstance(k, str) and k.startswith("self."):
                 env[k] = v
@@ -161,9 +183,14 @@ def run_concrete(stmts, env, events, notes, depth=0, workers=(), resolver=None, 
                     h = hooks[("*", f.attr)]
                     return h(r, avals) if callable(h) else h
                 return Desc("%s.%s(%s)" % (recv, f.attr, ", ".join(args)))
+            if isinstance(f, ast.Name) and functions and f.id in functions and f.id not in workers:
+                avals, kvals = values(e)
+                return call_method(functions[f.id], avals, kvals)
             if isinstance(f, ast.Name):
                 # a plain function / constructor the evaluator has no model of: described, not interpreted
                 avals, kvals = values(e)
+                if f.id == "len" and len(avals) == 1 and isinstance(avals[0], Seq):
+                    return avals[0].length
                 if f.id == "len" and len(avals) == 1 and isinstance(avals[0], Ref):
                     return Desc("len(%r)" % avals[0])
                 if f.id == "enumerate" and avals and isinstance(avals[0], (list, tuple)):
@@ -209,6 +236,19 @@ def run_concrete(stmts, env, events, notes, depth=0, workers=(), resolver=None, 
                 except NotConst:
                     sl = U(e.slice)
                 return Desc("%r[%s]" % (base, sl))
+        if isinstance(e, ast.Subscript) and isinstance(e.slice, ast.Slice) and e.slice.step is None:
+            try:
+                base = val(e.value)
+            except NotConst:
+                base = None
+            if isinstance(base, Seq):
+                lo = val(e.slice.lower) if e.slice.lower is not None else 0
+                hi = val(e.slice.upper) if e.slice.upper is not None else base.length
+                if isinstance(lo, int) and isinstance(hi, int) and not isinstance(lo, bool) and not isinstance(hi, bool):
+                    lo = max(0, min(base.length, lo if lo >= 0 else base.length + lo))
+                    hi = max(0, min(base.length, hi if hi >= 0 else base.length + hi))
+                    return Seq(max(0, hi - lo), base.start + lo, base.name)
+                raise NotConst("slice bounds")
         if isinstance(e, (ast.Tuple, ast.List)):
             out = [val(x) for x in e.elts]
             return tuple(out) if isinstance(e, ast.Tuple) else out
@@ -237,22 +277,22 @@ def run_concrete(stmts, env, events, notes, depth=0, workers=(), resolver=None, 
             t = val(e.test)
             if isinstance(t, Desc):
                 raise NotConst("test %s" % U(e.test))
-            return val(e.body) if (True if isinstance(t, Obj) else t) else val(e.orelse)
+            return val(e.body) if truth(t) else val(e.orelse)
         if isinstance(e, ast.UnaryOp) and isinstance(e.op, ast.Not):
             t = val(e.operand)
             if isinstance(t, Desc):
                 raise NotConst(t)
-            return not (True if isinstance(t, Obj) else t)
+            return not truth(t)
         if isinstance(e, ast.BoolOp):
             r = None
             for x in e.values:
                 r = val(x)
                 if isinstance(r, Desc):
                     raise NotConst(r)
-                truth = True if isinstance(r, Obj) and not isinstance(r, Ref) else (bool(r.items) if isinstance(r, Ref) else bool(r))
-                if isinstance(e.op, ast.And) and not truth:
+                tr_ = truth(r)
+                if isinstance(e.op, ast.And) and not tr_:
                     return r
-                if isinstance(e.op, ast.Or) and truth:
+                if isinstance(e.op, ast.Or) and tr_:
                     return r
             return r
         if isinstance(e, ast.Compare) and len(e.ops) == 1:
@@ -312,14 +352,10 @@ def run_concrete(stmts, env, events, notes, depth=0, workers=(), resolver=None, 
     def truth_of(tv, node):
         if isinstance(tv, Desc):
             raise NotConst(tv)
-        if isinstance(tv, Ref):
-            return bool(tv.items)
-        if isinstance(tv, Obj):
-            return True
-        return bool(tv)
+        return truth(tv)
 
     def sub(block):
-        return run_concrete(block, env, events, notes, depth + 1, workers, resolver, hooks)
+        return run_concrete(block, env, events, notes, depth + 1, workers, resolver, hooks, functions)
 
     try:
         for st in stmts:
@@ -347,6 +383,10 @@ def run_concrete(stmts, env, events, notes, depth=0, workers=(), resolver=None, 
                 try:
                     tv = truth_of(val(st.test), st.test)
                 except NotConst:
+                    if st.body and isinstance(st.body[-1], ast.Raise) and not st.orelse:
+                        # an error guard on a value the evaluator only has a description of: the path described is the one where it does not fire
+                        events.append(("guard", U(st.test)[:80]))
+                        continue
                     notes.append("test %s" % U(st.test)[:60])
                     for blk in (st.body, st.orelse):
                         sub(blk)
@@ -392,6 +432,14 @@ def run_concrete(stmts, env, events, notes, depth=0, workers=(), resolver=None, 
                 except NotConst:
                     v = Desc(U(st.value))
                 cur = env.get(U(st.target), Desc(U(st.target)))
+                from .consteval import BIN as _BIN
+                if isinstance(cur, (int, float, str, list, tuple)) and not isinstance(cur, Desc) and isinstance(v, (int, float, str, list, tuple)) and not isinstance(v, Desc) \
+                        and type(st.op) in _BIN:
+                    try:
+                        env[U(st.target)] = _BIN[type(st.op)](cur, v)
+                        continue
+                    except Exception:
+                        pass
                 env[U(st.target)] = Desc("%s %s %s" % (show(cur), type(st.op).__name__, show(v)))
                 continue
             if isinstance(st, ast.Raise):
